@@ -96,7 +96,23 @@ def h_sweeps(ctx, d, n, r, I, weighted, nswp):
     Y0, y, lamb, w = _setup(ctx, d, n, r, I, weighted)
     Y0c = [G.copy() for G in Y0]
     info = {}
-    Y = _with_stubs(ctx, lambda: teneva.als(np.array(I), y, Y0, nswp=nswp, e=None, info=info, lamb=lamb, w=w))
+    seen = []
+
+    def cb(Yc, info_, opts):
+        seen.append(([G.copy() for G in Yc], [M.copy() for M in opts['Yr']]))
+    Y = _with_stubs(ctx, lambda: teneva.als(np.array(I), y, Y0, nswp=nswp, e=None, info=info, lamb=lamb, w=w, cb=cb))
+    # what the next sweep starts from (equivalent to the a+b restart clause, at the cost of one sweep):
+    # the right interface matrices handed to the callback are those of the current cores
+    Yc, Yr = seen[-1]
+    ok = []
+    for k in range(d - 1):
+        for j, i in enumerate(I):
+            v = None
+            for t in range(d - 1, k, -1):
+                M = Yc[t][:, i[t], :]
+                v = M if v is None else M @ v
+            ok.append(ctx.all_eq(Yr[k][:, j], v[:, 0]))
+    ctx.claim('right_interfaces_match_the_cores_after_the_sweep', ctx.all_(ok))
     ctx.claim('well_formed', well_formed(Y, [n] * d))
     ctx.claim('ranks_kept', [G.shape for G in Y] == [G.shape for G in Y0c])
     ctx.claim('finite', finite(ctx, Y))
@@ -350,16 +366,17 @@ def h_missing_slice(ctx, d, n):
     Y0 = ctx.tt('g', [n] * d, 1)
     I = [tuple([0] * d), tuple([0] * (d - 1) + [1])]
     y = vec(ctx, 'y', 2)
-    ctx.raises(ValueError, 'missing_slice_rejected', teneva.als, np.array(I), y, Y0, 1)
+    # (teneva.accuracy stubbed: an accepted call must not drag the stabilised norm into the run)
+    _with_stubs(ctx, lambda: ctx.raises(ValueError, 'missing_slice_rejected', teneva.als, np.array(I), y, Y0, 1))
     Y = _with_stubs(ctx, lambda: teneva.als(np.array(I), y, Y0, nswp=1, e=None, allow_skip_cores=True))
     ctx.claim('allowed_skip_keeps_shape', well_formed(Y, [n] * d))
     ctx.claim('uncovered_slice_kept', ctx.all_eq(Y[0][:, 1, :], Y0[0][:, 1, :]))
     # a missing slice that is not the last one of its mode
     I2 = [tuple([1] * d), tuple([1] * (d - 1) + [0])]
-    ctx.raises(ValueError, 'missing_first_slice_rejected', teneva.als, np.array(I2), y, Y0, 1)
+    _with_stubs(ctx, lambda: ctx.raises(ValueError, 'missing_first_slice_rejected', teneva.als, np.array(I2), y, Y0, 1))
     w = vec(ctx, 'w', 2)
-    ctx.raises(ValueError, 'missing_first_slice_rejected_weighted',
-               lambda: teneva.als(np.array(I2), y, Y0, 1, lamb=None, w=w))
+    _with_stubs(ctx, lambda: ctx.raises(ValueError, 'missing_first_slice_rejected_weighted',
+                                        lambda: teneva.als(np.array(I2), y, Y0, 1, lamb=None, w=w)))
 
 
 def h_callback(ctx, d, n, I):
@@ -387,7 +404,7 @@ def h_callback(ctx, d, n, I):
     ctx.claim('default_info_carries_nothing_over', all(bool(ctx.all_eq(a, b)) for a, b in zip(Ya, Yb)))
 
 
-def h_func(ctx, m, n, sym_points=False, fixed_cores=False, y_last=None, n_max=None):
+def h_func(ctx, m, n, sym_points=False, fixed_cores=False, y_last=None, n_max=None, thr_pow=None):
     """Functional version (als_func), d = 2, rank 1, Chebyshev basis of size n:
     every core update is the exact minimiser of the regularised objective over
     the retained degrees (spy on als_func._optimize_core), shape and ranks are
@@ -420,7 +437,7 @@ def h_func(ctx, m, n, sym_points=False, fixed_cores=False, y_last=None, n_max=No
     real = fmod._optimize_core
     trace = []
     stack = []
-    thr = 1.E-6
+    thr = 1.E-6 if thr_pow is None else thr_pow
 
     def spy(Q, y_trn, Yl, Yr, Hk, n_max, thr_pow, lamb=None, update_sol=None):
         Qo = Q.copy()
@@ -445,7 +462,7 @@ def h_func(ctx, m, n, sym_points=False, fixed_cores=False, y_last=None, n_max=No
     fmod._optimize_core = spy
     info = {}
     try:
-        Y = _with_stubs(ctx, lambda: teneva.als_func(X, y, A0, nswp=1, e=None, info=info, lamb=lamb, n_max=n_max))
+        Y = _with_stubs(ctx, lambda: teneva.als_func(X, y, A0, nswp=1, e=None, info=info, lamb=lamb, n_max=n_max, thr_pow=thr))
     finally:
         fmod._optimize_core = real
     ctx.claim('well_formed', well_formed(Y, [G.shape[1] for G in Y]))
@@ -475,6 +492,26 @@ def h_func(ctx, m, n, sym_points=False, fixed_cores=False, y_last=None, n_max=No
         ctx.claim('descent_identity_func', ctx.eq(slice_obj(Qo) - slice_obj(Qn), sos))
     if all(G.shape[1] == n for G in Y):
         ctx.claim('shape_kept_when_not_truncated', True)
+    # the core updated last (core 1) minimises the objective given the *returned* core 0
+    # (also when degrees were dropped on the way: the interfaces must follow the truncation)
+    def cheb(x, kk):
+        t0, t1 = 1, x
+        out = [t0, t1]
+        for _ in range(2, kk):
+            t0, t1 = t1, 2 * x * t1 - t0
+            out.append(t1)
+        return out[:kk]
+    n0, n1 = Y[0].shape[1], Y[1].shape[1]
+    ok = []
+    for s_ in range(n1):
+        g = Y[1][0, s_, 0] * lamb
+        for j in range(m):
+            T0, T1 = cheb(X[j, 0], n0), cheb(X[j, 1], n1)
+            L = sum((Y[0][0, t, 0] * T0[t] for t in range(n0)), 0)
+            pred = L * sum((Y[1][0, t, 0] * T1[t] for t in range(n1)), 0)
+            g = g + (pred - y[j]) * L * T1[s_]
+        ok.append(ctx.eq(g, 0))
+    ctx.claim('last_core_optimal_given_returned_cores', ctx.all_(ok))
 
 
 def _layouts(d, n, m, limit=None):
@@ -518,6 +555,7 @@ def instances(tier):
                 'opts': {'generic_divisors': True}})
     out.append({'func': 'h_split', 'params': {'d': 2, 'n': 2, 'r': 1, 'I': lay3[5], 'weighted': True},
                 'opts': {'generic_divisors': True}})
+
     for I, perm in [(lay2[0], [1, 0]), (lay3[1], [2, 0, 1]), (lay3[7], [1, 2, 0])]:
         out.append({'func': 'h_permutation', 'params': {'d': 2, 'n': 2, 'r': 1, 'I': I, 'perm': perm, 'weighted': True},
                     'opts': {'generic_divisors': True}})
@@ -526,6 +564,9 @@ def instances(tier):
         out.append({'func': 'h_func', 'params': {'m': 2, 'n': 2, 'fixed_cores': True, 'y_last': yl},
                     'opts': {'generic_divisors': True}})
     out.append({'func': 'h_func', 'params': {'m': 2, 'n': 2, 'fixed_cores': True, 'y_last': 1, 'n_max': 2},
+                'opts': {'generic_divisors': True}})
+    # a coarse truncation threshold: degrees are dropped for ordinary data
+    out.append({'func': 'h_func', 'params': {'m': 2, 'n': 2, 'fixed_cores': True, 'y_last': 1, 'thr_pow': 0.5},
                 'opts': {'generic_divisors': True}})
     if not quick:
         # symbolic initial cores / three samples: heavy (2x2 ridge systems with symbolic data, truncation forks)
